@@ -2,13 +2,19 @@ import TracklibVerif.Lemmas.GraphTable
 import TracklibVerif.Lemmas.GraphPD
 import TracklibVerif.Lemmas.GraphSessionQ
 import TracklibVerif.Lemmas.GraphR4
+import TracklibVerif.Lemmas.GraphWorld
+import TracklibVerif.Lemmas.GraphWorldQ
+import TracklibVerif.Lemmas.GraphAStarFix
 import Mathlib.Algebra.Order.Group.Int
 /-! # C06 — network shortest distances are the true minimum over permitted walks
 
 Property theorems only (helper lemmas: `Lemmas/Graph.lean`, `Lemmas/GraphStop.lean`, `Lemmas/GraphTable.lean`,
-`Lemmas/GraphSession.lean`, `Lemmas/GraphSessionQ.lean`, `Lemmas/PDict.lean`, `Lemmas/Heapq.lean`, `Lemmas/GraphPD.lean`).
+`Lemmas/GraphSession.lean`, `Lemmas/GraphSessionQ.lean`, `Lemmas/PDict.lean`, `Lemmas/Heapq.lean`, `Lemmas/GraphPD.lean`,
+`Lemmas/GraphAStar.lean`, `Lemmas/GraphAStarFix.lean`, `Lemmas/GraphWorld.lean`).
 The model (`Model/Graph.lean`) mirrors `Network.run_routing_forward` in Dijkstra mode and the API functions that
-read its result. Weights live in any linearly ordered additive commutative monoid (`ℕ ℤ ℚ ℝ`, …) and are
+read its result; `Model/GraphAStar.lean` adds the routing-method API (`setRoutingMethod`, `setAStarWeight`, the A* branch
+as coded, several `Network` objects with their own settings) — see the section "the routing-method API" below for
+which configurations the statement holds in. Weights live in any linearly ordered additive commutative monoid (`ℕ ℤ ℚ ℝ`, …) and are
 non-negative (`WFNet`); there is no bound on the size of the network. `Walk net s v c` is a walk of arcs, each
 traversed in a direction its orientation permits (`≥ 0`: source→target, `≤ 0`: target→source), of total
 weight `c`; `IsDist net s v y` says `y` is the minimum of those weights; the sentinel `-1` is `none`.
@@ -311,6 +317,150 @@ theorem forward_uses_priority_dict (net : Net W) (hnet : WFNet net) (s : Nat) (h
     (tgt : Option Nat) (cut : Option W) : runForwardPD net s tgt cut = runForward net s tgt cut :=
   runForwardPD_eq net hnet s hs tgt cut
 
+/-! ### the routing-method API: `setRoutingMethod` / `setAStarWeight`, the A* branch of `run_routing_forward`, several
+`Network` objects with their own settings (`Model/GraphAStar.lean`)
+
+For which configurations does the property's statement hold?
+* **Dijkstra** (an object's own `routing_mode ≠ 1`): always — `world_dijkstra_distance_correct` is the statement for any
+  program over several objects; `own_setting_dijkstra_is_session` reduces every call to the session model; `routing_settings_per_object` says that only the object's *own*
+  setters count, whatever other `Network` objects of the program were told.
+* **A\*, no target** (list form, `all_shortest_distances`, `prepare`, `sub_network`): always, the heuristic is never
+  computed — `no_target_no_heuristic`.
+* **A\* with a target, heuristic 0** (`astar_wgt = 0`, or all nodes at the target's place): always —
+  `astar_zero_heuristic_is_dijkstra`.
+* **A\* with a target, as coded, heuristic not 0**: the statement does *not* hold, not even for a consistent heuristic
+  (weights ≥ `astar_wgt` × straight-line length, the case for which `setRoutingMethod`'s docstring promises the exact
+  solution): the code keeps `g + h` in `poids` and relaxes from it, so the heuristic terms accumulate —
+  `astar_as_coded_inflates` is a 3-node road on which it reports 30 for a distance of 20. What remains true for every
+  `h ≥ 0` is `astar_as_coded_bounds`: a reported value is at least the weight of a permitted walk (never below the
+  minimum), and without a cut-off the sentinel is reported iff no walk exists. (Finding `astar-label-accumulates-heuristic`.)
+* **the repair** (`forwardFix`: label `g`, queue priority `g + h`): exact for every consistent heuristic —
+  `astar_fixed_exact`; `consistent_of_scaled_metric` is the step from "every edge weighs at least `astar_wgt` × the distance
+  between its ends" (plus the triangle inequality of that distance) to consistency. -/
+
+section routing
+variable {V : Type} [LT V] [DecidableLT V] [Add V] [Sub V] [Mul V] [OfNat V 0] [OfNat V 1]
+
+/-- **instance-level settings.** In any program over any number of `Network` objects — creations, `setRoutingMethod`,
+`setAStarWeight` and calls of every kind interleaved in any order — the object created `k`-th ends in the state, and has
+returned the answers, that the calls addressed to *it* produce when run on it alone. What other objects are told
+(in particular that they should route with A*) never changes what this one answers. -/
+theorem routing_settings_per_object (sqrt : V → V) (w : World V) (ops : List (WorldOp V)) (k : Nat) (o : NetObj V)
+    (hk : w[k]? = some o) :
+    (worldAfter sqrt w ops)[k]? = some (objAfter sqrt o (opsOn k ops)) ∧
+    answersOn k ops (runWorld sqrt w ops) = runObj sqrt o (opsOn k ops) :=
+  world_projection sqrt w ops k o hk
+
+/-- an object whose own `routing_mode` is not 1 — never configured (`Network()` sets `ROUTING_ALGO_DIJKSTRA`), or set back
+to Dijkstra — answers every call as the one-object session model does (so `session_distance_correct` … apply),
+whatever its `astar_wgt`. The setters change the two attributes of their own object and nothing else. -/
+theorem own_setting_dijkstra_is_session (sqrt : V → V) (o : NetObj V) (hm : o.mode ≠ 1) (op : Op V) (m : Nat) (x : V) :
+    execObj sqrt o (.call op) = ({ o with sess := (exec o.sess op).1 }, (exec o.sess op).2) ∧
+    (NetObj.new 0 o.pos : NetObj V).mode = 0 ∧
+    execObj sqrt o (.setMethod m) = ({ o with mode := m }, .unit) ∧
+    execObj sqrt o (.setWeight x) = ({ o with wgt := x }, .unit) :=
+  ⟨execObj_dijkstra sqrt o hm op, rfl, rfl, rfl⟩
+
+/-- in A* mode too, every call other than a search *with a target* (`shortest_distance(s)` list form,
+`run_routing_forward(s)`, `all_shortest_distances`, `prepare`, `sub_network`, …) is the Dijkstra call: the code computes
+the heuristic only `if (self.routing_mode == 1) and not (target is None)`. -/
+theorem no_target_no_heuristic (sqrt : V → V) (o : NetObj V) (op : Op V)
+    (h1 : ∀ s t cut ud, op ≠ .route s (some t) cut ud) (h2 : ∀ s t cut ud, op ≠ .dist s t cut ud) :
+    execObj sqrt o (.call op) = ({ o with sess := (exec o.sess op).1 }, (exec o.sess op).2) :=
+  execObj_no_target sqrt o op h1 h2
+end routing
+
+/-- **the property in a program with several networks.** Start with no `Network` object and run any program: creations,
+`addNode` / `addEdge`, searches of every kind, `prepare`, `sub_network`, and `setRoutingMethod` / `setAStarWeight` on any of
+the objects, in any interleaving (the object itself may have been in A* mode earlier). Then on every object whose own
+routing method is Dijkstra at that moment, `shortest_distance(s, t[, cut])` is the minimum weight over the permitted walks
+of that object's current graph — the sentinel iff there is none; with a cut-off the true distance whenever it is within
+it. (The seeded change that keeps the settings at class level breaks exactly this.) -/
+theorem world_dijkstra_distance_correct [Sub W] [Mul W] [OfNat W 1] (sqrt : W → W) (ops : List (WorldOp W)) (k : Nat)
+    (o : NetObj W) (hk : (worldAfter sqrt [] ops)[k]? = some o) (hm : o.mode ≠ 1) (s t : Nat)
+    (hs : s ∈ o.sess.order) (ht : t ∈ o.sess.order) (cut : Option W) (ud : Bool) :
+    ∃ d, (execWorld sqrt (worldAfter sqrt [] ops) (.on k (.call (.dist s t cut ud)))).2 = .val d ∧
+      (∀ y, IsDist o.sess.net s t y → Within cut y → d = some y) ∧ (¬ Reachable o.sess.net s t → d = none) ∧
+      (cut = none → ∀ y, d = some y ↔ IsDist o.sess.net s t y) ∧
+      (cut = none → (d = none ↔ ¬ Reachable o.sess.net s t)) := by
+  have h : SessOK o.sess := worldAfter_ok sqrt [] (by intro k o hq; simp at hq) ops k o hk
+  refine ⟨shortestDistance o.sess.net s t cut, ?_, ?_, ?_, ?_, ?_⟩
+  · simp only [execWorld, hk]
+    rw [execObj_dijkstra sqrt o hm]
+    exact (exec_dist_eq o.sess h s t hs ht cut ud).1
+  · exact (shortest_distance_cut o.sess.net h.wf s t (h.nodes s hs) cut).1
+  · exact (shortest_distance_cut o.sess.net h.wf s t (h.nodes s hs) cut).2
+  · intro hc; subst hc; exact (shortest_distance_correct o.sess.net h.wf s t (h.nodes s hs)).1
+  · intro hc; subst hc; exact (shortest_distance_correct o.sess.net h.wf s t (h.nodes s hs)).2
+
+/-- A* with a heuristic that is 0 on every node — `astar_wgt = 0` (`heuristicOf_zero_weight`), or every node at the
+target's position — is Dijkstra: same labels, same recorded entries, hence the true distance (needs `a + 0 = a`, which
+the other theorems do not use). -/
+theorem astar_zero_heuristic_is_dijkstra (hadd : ∀ a : W, a + 0 = a) (net : Net W) (hnet : WFNet net) (h : Nat → W)
+    (hz : ∀ v, h v = 0) (s t : Nat) (hs : s < net.n) (cut : Option W) :
+    runForwardH net h s (some t) cut = runForward net s (some t) cut ∧
+    shortestDistanceH net h s t cut = shortestDistance net s t cut ∧
+    (∀ y, shortestDistanceH net h s t none = some y ↔ IsDist net s t y) ∧
+    (shortestDistanceH net h s t none = none ↔ ¬ Reachable net s t) := by
+  have e1 : ∀ cut, runForwardH net h s (some t) cut = runForward net s (some t) cut :=
+    fun cut => forwardH_zero hadd net h hz (some t) cut net.n (St.init s) []
+  have e2 : ∀ cut, shortestDistanceH net h s t cut = shortestDistance net s t cut := by
+    intro cut; unfold shortestDistanceH shortestDistance; rw [e1]
+  refine ⟨e1 cut, e2 cut, ?_, ?_⟩
+  · intro y; rw [e2]; exact (shortest_distance_correct net hnet s t hs).1 y
+  · rw [e2]; exact (shortest_distance_correct net hnet s t hs).2
+
+/-- the A* branch **as coded** (`fils.poids = pere.poids + e.weight + heuristic`), any heuristic `h ≥ 0`, any cut-off:
+whatever `shortest_distance(s, t)` reports is at least the weight of some permitted walk `s → t` — never below the true
+minimum; and without a cut-off it reports the sentinel exactly when no permitted walk exists. (It is *not* the
+minimum in general: `astar_as_coded_inflates`.) -/
+theorem astar_as_coded_bounds (net : Net W) (hnet : WFNet net) (h : Nat → W) (hh : ∀ v, 0 ≤ h v) (s t : Nat)
+    (hs : s < net.n) :
+    (∀ cut y, shortestDistanceH net h s t cut = some y → ∃ c, Walk net s t c ∧ c ≤ y) ∧
+    (shortestDistanceH net h s t none = none ↔ ¬ Reachable net s t) :=
+  shortestDistanceH_spec net hnet h hh s t hs
+
+/-- the repaired A* (label `g`, queue priority `g + h`: `forwardFix`) is exact for every **consistent** heuristic
+(`h u ≤ w + h v` along every permitted arc): `shortest_distance(s, t)` is the minimum weight over the permitted walks,
+the sentinel iff there is none. Weights in a linearly ordered cancellative commutative monoid (`ℕ ℤ ℚ ℝ`); exact
+arithmetic (with floats `g + h` comparisons are subject to rounding). -/
+theorem astar_fixed_exact {V : Type} [AddCommMonoid V] [LinearOrder V] [IsOrderedCancelAddMonoid V]
+    (net : Net V) (hnet : WFNet net) (h : Nat → V) (hc : Consistent net h) (s t : Nat) (hs : s < net.n) :
+    (∀ y, shortestDistanceFix net h s t none = some y ↔ IsDist net s t y) ∧
+    (shortestDistanceFix net h s t none = none ↔ ¬ Reachable net s t) :=
+  shortestDistanceFix_spec net hnet h hc s t hs
+
+/-- where consistency comes from: if `g u v` (= `astar_wgt` × the straight-line distance between `u` and `v`) satisfies
+the triangle inequality towards the target, `h u ≤ g u v + h v`, and no edge weighs less than `g` between its ends, the
+heuristic is consistent. This is the configuration the harness' oracle holds A* to the statement for. -/
+theorem consistent_of_scaled_metric {V : Type} [AddCommMonoid V] [LinearOrder V] [IsOrderedCancelAddMonoid V]
+    (net : Net V) (h : Nat → V) (g : Nat → Nat → V) (htri : ∀ u v, h u ≤ g u v + h v)
+    (hedge : ∀ u v w, Arc net u v w → g u v ≤ w) : Consistent net h :=
+  fun u v w ha => le_trans (htri u v) (add_le_add_left (hedge u v w ha) (h v))
+
+/-- the straight road 0 –10– 1 –10– 2 with nodes at x = 0, 10, 20 and the heuristic `h v` = distance to node 2 -/
+def road : Net Int := { n := 3, edges := [⟨0, 0, 1, 10, 0⟩, ⟨1, 1, 2, 10, 0⟩] }
+def roadH : Nat → Int := fun v => if v = 0 then 20 else if v = 1 then 10 else 0
+
+/-- **the A* branch as coded is not exact, even for a consistent heuristic** (finding `astar-label-accumulates-heuristic`):
+on `road`, every weight equal to the straight-line length, `h ≥ 0` consistent, it reports 30; the distance is 20, which
+is what the repaired variant (and Dijkstra) reports. -/
+theorem astar_as_coded_inflates :
+    WFNet road ∧ Consistent road roadH ∧ (∀ v, 0 ≤ roadH v) ∧
+    shortestDistanceH road roadH 0 2 none = some 30 ∧
+    shortestDistanceFix road roadH 0 2 none = some 20 ∧ shortestDistance road 0 2 none = some 20 ∧ IsDist road 0 2 20 := by
+  have hwf : WFNet road := by
+    intro e he
+    simp only [road, List.mem_cons, List.not_mem_nil, or_false] at he
+    rcases he with rfl | rfl <;> simp [road]
+  have hcons : Consistent road roadH := by
+    intro u v w ⟨e, he, hw, hdir⟩
+    simp only [road, List.mem_cons, List.not_mem_nil, or_false] at he
+    rcases he with rfl | rfl <;> rcases hdir with ⟨_, rfl, rfl⟩ | ⟨_, rfl, rfl⟩ <;> subst hw <;> decide
+  have hd : shortestDistance road 0 2 none = some 20 := by decide +kernel
+  exact ⟨hwf, hcons, fun v => by unfold roadH; split <;> [decide; (split <;> decide)],
+    by decide +kernel, by decide +kernel, hd, ((shortest_distance_correct road hwf 0 2 (by decide)).1 20).1 hd⟩
+
 /-! ### the hypotheses are satisfiable by a non-trivial network, and the model computes on it -/
 
 /-- 3 nodes; a zero-weight two-way edge 0–1, an edge stored 2→1 that may only be travelled 1→2
@@ -366,5 +516,22 @@ example : IsDist demoR 0 3 (R4.of 8) :=
     intro e he
     simp only [demoR, List.mem_cons, List.not_mem_nil, or_false] at he
     rcases he with rfl | rfl | rfl <;> exact ⟨by decide, by decide, Nat.zero_le _⟩) 0 3 (by decide)).1 _).1 (by decide +kernel)
+
+/-! ### the routing-method API on concrete objects -/
+
+/-- two `Network` objects; the second is switched to A*, the first is never configured: its answer (20 on the road) is
+the Dijkstra answer, the second reports the inflated 30; with `astar_wgt = 0` it reports 20 again -/
+def roadPos : Nat → Pos Rat := fun v => ⟨10 * v, 0, 0⟩
+def roadOps (k : Nat) : List (WorldOp Rat) :=
+  [.on k (.call (.addEdge ⟨0, 0, 1, 10, 0⟩)), .on k (.call (.addEdge ⟨1, 1, 2, 10, 0⟩))]
+def twoRoads : List (WorldOp Rat) :=
+  [.create 3 roadPos, .create 3 roadPos] ++ roadOps 0 ++ roadOps 1 ++
+  [.on 1 (.setMethod 1), .on 0 (.call (.dist 0 2 none false)), .on 1 (.call (.dist 0 2 none false)),
+   .on 1 (.call (.distList 0 none false)), .on 1 (.setWeight 0), .on 1 (.call (.dist 0 2 none false))]
+example : ((runWorld sqrtRat [] twoRoads).drop 7).map (fun o => match o with | .val d => d | _ => none)
+    = [some 20, some 30, none, none, some 20] := by decide +kernel
+example : (answersOn 0 twoRoads (runWorld sqrtRat [] twoRoads)).length = 3 := by decide +kernel
+/-- `math.sqrt` on rational squares, as the exact stream uses it -/
+example : sqrtRat (25 / 4) = 5 / 2 ∧ isSquareRat (25 / 4) = true ∧ isSquareRat 2 = false := by decide +kernel
 
 end TV.C06
